@@ -106,6 +106,51 @@ typedef unsigned long ulong_t;
 DEFTEST(ulong_t, ulong)
 typedef void *ptr_t;
 
+/* operands whose type differs from the cell's type (narrower / wider, signed / unsigned): the value is
+ * converted to the cell's type by the usual C rules, then the operation is applied at the cell's width */
+#define DEFMIX(T, TN, U, UN)										\
+static void mix_##TN##_##UN(void)									\
+{													\
+	int i, j;											\
+													\
+	for (i = 0; i < NALPHA; i++)									\
+		for (j = 0; j < NALPHA; j++) {								\
+			T old = (T)ALPHA[i], *p = (T *)(buf + 16), r;					\
+			U u = (U)ALPHA[j];								\
+			long long lu = (long long)u;							\
+													\
+			fill(); memcpy(p, &old, sizeof(T));						\
+			r = uatomic_add_return(p, u); if (r != (T)(old + (T)u)) report(#TN "<-" #UN, "add_return", 0, old, lu, 0, "wrong return value"); \
+			CHECK_IMG(T, #TN "<-" #UN, "add_return", 0, old, lu, 0, (T)(old + (T)u));	\
+			fill(); memcpy(p, &old, sizeof(T));						\
+			r = uatomic_sub_return(p, u); if (r != (T)(old - (T)u)) report(#TN "<-" #UN, "sub_return", 0, old, lu, 0, "wrong return value"); \
+			CHECK_IMG(T, #TN "<-" #UN, "sub_return", 0, old, lu, 0, (T)(old - (T)u));	\
+			fill(); memcpy(p, &old, sizeof(T)); uatomic_add(p, u); CHECK_IMG(T, #TN "<-" #UN, "add", 0, old, lu, 0, (T)(old + (T)u)); \
+			fill(); memcpy(p, &old, sizeof(T)); uatomic_sub(p, u); CHECK_IMG(T, #TN "<-" #UN, "sub", 0, old, lu, 0, (T)(old - (T)u)); \
+			fill(); memcpy(p, &old, sizeof(T)); uatomic_and(p, u); CHECK_IMG(T, #TN "<-" #UN, "and", 0, old, lu, 0, (T)(old & (T)u)); \
+			fill(); memcpy(p, &old, sizeof(T)); uatomic_or(p, u); CHECK_IMG(T, #TN "<-" #UN, "or", 0, old, lu, 0, (T)(old | (T)u)); \
+			fill(); memcpy(p, &old, sizeof(T)); r = uatomic_xchg(p, u);			\
+			if (r != old) report(#TN "<-" #UN, "xchg", 0, old, lu, 0, "wrong return value");	\
+			CHECK_IMG(T, #TN "<-" #UN, "xchg", 0, old, lu, 0, (T)u);			\
+			fill(); memcpy(p, &old, sizeof(T)); r = uatomic_cmpxchg(p, old, u);		\
+			if (r != old) report(#TN "<-" #UN, "cmpxchg", 0, old, lu, 0, "wrong return value");	\
+			CHECK_IMG(T, #TN "<-" #UN, "cmpxchg", 0, old, lu, 0, (T)u);			\
+			fill(); uatomic_set(p, u); CHECK_IMG(T, #TN "<-" #UN, "set", 0, old, lu, 0, (T)u);	\
+		}											\
+}
+#define MIXROW(T, TN)											\
+	DEFMIX(T, TN, uint8_t, u8) DEFMIX(T, TN, int8_t, s8) DEFMIX(T, TN, uint16_t, u16) DEFMIX(T, TN, int16_t, s16)	\
+	DEFMIX(T, TN, unsigned int, uint) DEFMIX(T, TN, int, int) DEFMIX(T, TN, unsigned long, ul) DEFMIX(T, TN, long, l)	\
+	static void mixrow_##TN(void) { mix_##TN##_u8(); mix_##TN##_s8(); mix_##TN##_u16(); mix_##TN##_s16();		\
+		mix_##TN##_uint(); mix_##TN##_int(); mix_##TN##_ul(); mix_##TN##_l(); }
+MIXROW(uint8_t, u8)
+MIXROW(int16_t, s16)
+MIXROW(uint32_t, u32)
+MIXROW(int32_t, s32)
+MIXROW(uint64_t, u64)
+MIXROW(int64_t, s64)
+MIXROW(ulong_t, ulong)
+
 int main(int argc, char **argv)
 {
 	int full8 = argc > 1 && argv[1][0] == 'f';
@@ -113,6 +158,7 @@ int main(int argc, char **argv)
 	test_u8(1);
 	test_s8(full8);
 	test_u16(0); test_s16(0); test_u32(0); test_s32(0); test_u64(0); test_s64(0); test_ulong(0);
+	mixrow_u8(); mixrow_s16(); mixrow_u32(); mixrow_s32(); mixrow_u64(); mixrow_s64(); mixrow_ulong();
 	{
 		/* pointer-typed cells: xchg / cmpxchg / set / read */
 		void *cell, *a = (void *)0x1234, *b = (void *)-16L, *r;
